@@ -134,6 +134,19 @@ def rule_writeback(report, prog):
                      s.loc(), 'synchronize no longer covers the image')
 
 
+def rule_tlv_phases(report, prog, rule='C02-R1'):
+    """Type 1 / Type 2 writers folded over layouts x message lengths (rules/tlvmodel.py) with every image handed to synchronize()
+    recorded: all but the last announce an empty message, the last one holds the whole message and its length, nothing is left
+    unflushed, and a non-empty message needs at least two flushes (value before length)."""
+    from . import tlvmodel
+    for kind in ('tt1', 'tt2'):
+        f = prog.func('nfc.tag.%s.Type%sTag.NDEF._write_ndef_data' % (kind, kind[2]))
+        v = tlvmodel.phase_verdicts(prog, kind)
+        fold_bad = [p_ for p_ in tlvmodel.verdicts(prog)[kind][0] if 'cannot fold' in p_ or 'raises' in p_]
+        report.check(not v and not fold_bad, rule, key(f.qname, 'folded writer: every flush before the last announces an empty message, the last holds message and length'),
+                     f.loc(), '; '.join((v + fold_bad)[:2]), detail='%d (layout, message length) points folded' % tlvmodel.verdicts(prog)[kind][1])
+
+
 def rule_t3(report, prog):
     f = prog.func('nfc.tag.tt3.Type3Tag.NDEF._write_ndef_data')
     cfg = cfg_of(f)
@@ -255,6 +268,7 @@ def run(report, prog, tier):
     from .c01 import rule_tt2_memory_units, rule_image_flush
     rule_tt2_memory_units(report, prog, rule='C02-R3')
     rule_image_flush(report, prog, rule='C02-R3')
+    rule_tlv_phases(report, prog)
     rule_t3(report, prog)
     rule_t4(report, prog)
     rule_read_is_pure(report, prog)
@@ -264,6 +278,8 @@ def run(report, prog, tier):
 
 
 MUTANTS = [
+    ('tt2-first-flush-announces-length', 'nfc.tag.tt2', "            tag_memory[offset+1] = 0\n            tag_memory.synchronize()", "            tag_memory[offset+1] = min(len(data), 254)\n            tag_memory.synchronize()", 'C02-R1'),
+    ('tt1-value-not-flushed-before-length', 'nfc.tag.tt1', "            # Write the new message data to the tag.\n            tag_memory.synchronize()\n", "", 'C02-R1'),
     ('tt2-reader-walks-past-empty-ndef-tlv', 'nfc.tag.tt2', """                elif tlv_t == 3:
                     ndef = tlv_v
                     break""", """                elif tlv_t == 3:
